@@ -5,7 +5,8 @@ proof         : coq/prop/P_C41.v over model/M_ConnIso.v -- (1) a generic small-s
                 of any length), sharing only the max_connections semaphore; (2) the private machine of one client
                 connection over the wire core (M_Wire.run_pipe and its parts), one step per client action.
                 Lemmas in proof/L_ConnIso.v (frame lemma, isolation and semaphore invariants, induction on the schedule)
-                and proof/L_ConnIsoWire.v (the machine run alone = the calls run one after the other on run_pipe).
+                proof/L_ConnIsoWire.v (the machine run alone = the calls run one after the other on run_pipe) and
+                proof/L_ConnIsoLive.v (every reachable state can be continued to all-Done).
 regenerated   : the shape of _serve_socket_threaded._handle and of the accept loop (semaphore created iff
                 max_connections is not None with that many permits; acquire before the transport is built and before
                 serve; release in the finally of the try around serve; one thread per accepted connection started
@@ -29,8 +30,8 @@ has none.  A connection that finds all slots taken WAITS (documented: "accepted 
 client observes the same results later, which is what the theorem says (its private run is a solo run of as many
 steps as it was allowed to take; once it is Done it is the complete solo run).  "None is dropped" is checked on the
 implementation (every connection is served to the end of its script in every run) and proved in the form
-C41_waiting_not_dropped; the liveness statement "every run can be extended to one where all connections are Done" is
-NOT proved (only exemplified), see the report.
+C41_waiting_not_dropped and C41_all_can_complete (every run can be continued to one where all connections are Done,
+proof/L_ConnIsoLive.v).
 Scripts: calls after which the connection is reusable (unary, iterate stop/close/cancel, exchange close/cancel);
 abandon only as a connection's last call; a stream whose init raises is called through its *_h method unless it is the
 last call (with a headerless method the error is only seen at the first read and the input sent by then is taken for
@@ -55,7 +56,7 @@ META = {
     "(its whole client observation) equals a solo run of its own script, equals the complete solo run once the connection is "
     "done, which equals its calls run one after the other on the wire core (run_pipe); at most max_connections connections are "
     "inside serve() at any point of any run; a waiting connection keeps its script untouched and waits only while max_connections "
-    "others are served.  The model is tied to /repo by regenerating the semaphore/try-finally shape of "
+    "others are served; every run can be continued until all connections are Done with their complete solo traces.  The model is tied to /repo by regenerating the semaphore/try-finally shape of "
     "_serve_socket_threaded and by replaying the observed linearisation of real concurrent runs (unix + tcp, max_connections "
     "None/1/2, 2-3 connections) on the model step by step.",
     "level_note": "Not proved from source: that RpcServer.serve touches only per-call/per-connection state (stack locals, thread-local "
@@ -106,8 +107,13 @@ def gen_program(rng: Any, kind: str) -> dict[str, Any]:
     n = rng.choice([1, 2, 3, 4])
     steps = [gen_step(rng, rng.choices(["emit", "raise", "finish", "emit_finish", "logonly"], [80, 6, 5, 5, 4])[0]) for _ in range(n)]
     prog = {"init_logs": gen_logs(rng), "init": "ok", "header": rng.randrange(-3, 100), "steps": steps}
-    if rng.random() < 0.08:
+    r = rng.random()
+    if r < 0.08:
         prog["init"] = {"raise": gen_exc(rng)}
+    elif r < 0.13:
+        prog["init"] = "bad_return"  # implementation fault: answered as a TypeError init error since repo 735475d
+    elif r < 0.18:
+        prog["header"] = None  # a *_h method then omits its declared header: also answered as a TypeError init error
     return prog
 
 
@@ -118,7 +124,7 @@ def gen_call(rng: Any, pool: dict[str, list[int]], progs: dict[int, dict[str, An
         return ["unary", pid]
     n = len(progs[pid]["steps"])
     h = "_h" if rng.random() < 0.4 else ""
-    if progs[pid]["init"] != "ok" and not last:
+    if (progs[pid]["init"] != "ok") and not last:
         # a headerless stream whose init raised is only noticed at the first read; the input the client has sent by then
         # is taken for the next request (single-connection matter: C01 key socket-headerless-init-outcome-unobserved-until-first-read)
         h = "_h"
@@ -247,11 +253,15 @@ def translate(ctx: Any) -> None:
 _OK = {"logs": [["INFO", "s", {}]], "emit": {"rows": 1, "meta": None}, "finish": False, "raise": None}
 _P_UNARY = {"logs": [["INFO", "u", {}]], "result": {"ok": 7}}
 _P_STREAM = {"init_logs": [["WARN", "i", {}]], "init": "ok", "header": 5, "steps": [_OK, _OK, _OK]}
+_P_BAD = {"init_logs": [], "init": "bad_return", "header": 5, "steps": [_OK]}
+_P_NOHDR = {"init_logs": [["INFO", "i6", {}]], "init": "ok", "header": None, "steps": [_OK]}
 _P_RAISE = {"init_logs": [], "init": "ok", "header": 5, "steps": [_OK, {"logs": [], "emit": None, "finish": False, "raise": ["ValueError", "boom"]}]}
 
 
 def fixed_scenarios() -> list[tuple[str, dict[int, dict[str, Any]], list[list[list[Any]]], list[int | None], list[int] | None, tuple[int, ...]]]:
-    progs = {1: _P_UNARY, 2: _P_STREAM, 3: _P_RAISE}
+    progs = {1: _P_UNARY, 2: _P_STREAM, 3: _P_RAISE, 5: _P_BAD, 6: _P_NOHDR}
+    faults = [[["unary", 1], ["iterate", "producer_h", 5, 1, "close"], ["unary", 1]], [["exchange", "exchange_h", 6, 1, "close"], ["iterate", "producer", 6, 1, "close"]],
+              [["exchange", "exchange_h", 5, 2, "cancel"], ["iterate", "producer", 2, 0, "stop"]]]
     same_stream = [[["iterate", "producer", 2, 0, "stop"]], [["iterate", "producer", 2, 0, "stop"]], [["exchange", "exchange", 2, 3, "close"]]]
     # strict alternation: every connection has the same stream program open and ticks it in turn
     rr = [0, 0, 1, 1, 2, 2] + [0, 1, 2] * 8
@@ -262,6 +272,8 @@ def fixed_scenarios() -> list[tuple[str, dict[int, dict[str, Any]], list[list[li
         ("queueing-three-connections", progs, three, [None, 1, 2], None, ()),
         # serve() of connections 0 and 2 raises when it ends (injected): _handle must still release their slots
         ("serve-raises-releases-slot", progs, three, [1, 2], None, (0, 2)),
+        # implementation faults (non-Stream result, missing declared header) are answered and the connection goes on
+        ("implementation-faults-answered", progs, faults, [None, 1, 2], None, ()),
         ("abandon-releases-slot", progs, [[["exchange", "exchange_h", 2, 1, "abandon"]], [["iterate", "producer", 2, 1, "abandon"]], [["unary", 1]]], [1, 2], None, ()),
     ]
 
@@ -271,7 +283,7 @@ def run(ctx: Any) -> None:
     ctx.prove(
         ["prop/P_C41.vo", "tie/T_ConnIso.vo"],
         {
-            "P_C41": ["C41_isolated", "C41_alone_is_solo", "C41_served_le_max_connections", "C41_waiting_not_dropped"],
+            "P_C41": ["C41_isolated", "C41_alone_is_solo", "C41_served_le_max_connections", "C41_waiting_not_dropped", "C41_all_can_complete"],
             "T_ConnIso": ["handle_shape_tie", "C41_source_served_le_max_connections"],
         },
     )
